@@ -1,0 +1,40 @@
+//go:build verif
+
+package slice
+
+// Contracts for govc (contract-based deductive verification; see /verif/DESIGN.md).
+// This file holds only comments and is compiled only with -tags verif.
+//
+// Linearizability (C14) by the coarse-grained-locking argument of DESIGN.md §3.3: every method has exactly one
+// critical section; L is the state right after the acquisition (whatever other goroutines left there), U the
+// state right before the release. The postcondition relates results and U to L by the sequential slice model.
+
+//@ type slice
+//@   lock lock protects data
+
+//@ func (*slice).Append
+//@   tags C14
+//@   requires s != nil
+//@   ensures [C14.slice.append.len] result == len(at(L, s.data)) + len(items) && len(at(U, s.data)) == result
+//@   ensures [C14.slice.append.old] forall i :: 0 <= i && i < len(at(L, s.data)) ==> at(U, s.data[i]) == at(L, s.data[i])
+//@   ensures [C14.slice.append.new] forall i :: 0 <= i && i < len(items) ==> at(U, s.data[len(at(L, s.data)) + i]) == at(L, items[i])
+//@   at call Lock#0 label L
+//@   at before call Unlock#0 label U
+
+//@ func (*slice).Len
+//@   tags C14
+//@   requires s != nil
+//@   modifies nothing
+//@   ensures [C14.slice.len] result == len(at(L, s.data))
+//@   ensures [C14.slice.len.pure] at(U, s.data) == at(L, s.data)
+//@   at call RLock#0 label L
+//@   at before call RUnlock#0 label U
+
+//@ func (*slice).Slice
+//@   tags C14
+//@   requires s != nil
+//@   modifies nothing
+//@   ensures [C14.slice.slice] result == at(L, s.data)
+//@   ensures [C14.slice.slice.pure] at(U, s.data) == at(L, s.data)
+//@   at call RLock#0 label L
+//@   at before call RUnlock#0 label U
